@@ -87,6 +87,11 @@ def build(cfg, secret, locked=False, with_uids=True, sub_pw=None):
             if flags == 'nobind':
                 continue        # a subkey packet without any binding signature (e.g. all that is left of a rotated-out subkey): no capability
             unh = keypool.sp(16, ppub.keyid) + unauth
+            if flags == 'unhashed-only':
+                # the binding signature states no key flags; somebody put a key-flags subpacket into the unhashed area, which grants nothing
+                body = rsig.sign(psec, 0x18, 8, ('subkey', ppub, spub), keypool.std_hashed(t0 + j, ppub.fingerprint), unh + keypool.sp(27, bytes([S | EC | ES])))
+                out += wire.build_packet(2, body)
+                continue
             if flags & S:
                 eb = rsig.sign(ssec, 0x19, 8, ('subkey', ppub, spub), keypool.std_hashed(t0 + j, spub.fingerprint), keypool.sp(16, spub.keyid))
                 unh += keypool.sp(32, eb)
@@ -100,7 +105,7 @@ def components(cfg, user):
     uf = cfg['uids'][user if user is not None else 0]
     out = [('primary', cfg['primary'], C | uf)]
     for skid, hist in cfg['subs']:
-        out.append(('sub:' + skid, skid, hist[-1] if hist[-1] != 'nobind' else 0))
+        out.append(('sub:' + skid, skid, hist[-1] if hist[-1] not in ('nobind', 'unhashed-only') else 0))
     return out
 
 
@@ -356,6 +361,7 @@ FIXED = [
     {'primary': 'rsa1024-0', 'uids': [0], 'subs': [('rsa1024-1', [A])], 'unhashed': True},
     {'primary': 'rsa1024-0', 'uids': [0], 'subs': [('rsa1024-1', [A]), ('cv25519-0', [0])], 'wide': True},
     {'primary': 'ed25519-0', 'uids': [A], 'subs': [('ed25519-1', [0])], 'wide': True},
+    {'primary': 'ed25519-0', 'uids': [0], 'subs': [('ecdsa-p256-1', ['unhashed-only']), ('ed25519-1', [S]), ('cv25519-0', ['unhashed-only']), ('cv25519-1', [EC])]},
     {'primary': 'ed25519-0', 'uids': [0], 'subs': [('ecdsa-p256-1', ['nobind']), ('ed25519-1', [S]), ('cv25519-0', ['nobind']), ('cv25519-1', [EC])]},
 ]
 
